@@ -1666,6 +1666,16 @@ func FuncArgReader(query *Query, current Map, selectExprs []sqlparser.Expr, opts
 		if err != nil {
 			return nil, err
 		}
+		// an ASYNC call used as an argument: the function needs the value, not the slot the value
+		// will be put in, so the calls under way are awaited here
+		for {
+			slot, ok := value.(*any)
+			if !ok {
+				break
+			}
+			query.wg.Wait()
+			value = *slot
+		}
 		slice = append(slice, value)
 	}
 	return slice, nil
